@@ -8,23 +8,23 @@ TB = ("Trusted: Coq 8.16.1 kernel; extraction (ExtrOcamlBasic only) + ocaml/driv
       "Python/numpy/networkx semantics mirrored by the hand-written model; exact rational arithmetic in theorems vs IEEE floats in the code "
       "(dyadic inputs, tolerance 1e-9). Axioms: see evidence print_assumptions. ")
 
-CLAIMS = {
- 'C20': dict(
-   text="Machine-checked theorems (coq/Props/C20.v, closed under the global context) over an executable model of subsample/get_time_shift/"
-        "get_Pk/PGF helpers/get_Pnk/estimate_R0 for ALL grids, series and degree sequences; the model is tied to /repo on every run by "
-        "running the extracted model and the implementation on the same inputs (exhaustive small grids + random) and by evaluating the L0 "
-        "specification on the implementation's outputs.",
-   design='DESIGN.md section 4, C20', technique='Coq proof over hand-written model + extracted-model/implementation correspondence',
-   note=TB + "Derivative clause is proved as: psi' and psi'' are the formal derivatives of the polynomial psi, and the formal derivative satisfies the difference-quotient identity (algebraic statement over Q, no real analysis)."),
- 'C16': dict(
-   text="Machine-checked theorems (coq/Props/C16.v) over an executable model of _ListDict_ written as the code is (item list, position map, "
-        "weight map, tracked maximum and its miscount, running total): invariant after EVERY history of insert/update/remove with non-negative "
-        "weights, refinement to a finite map, closed-form law of the rejection loop for every fuel (selection probability exactly weight/total, "
-        "zero weights never selected). Tie: white-box differential test of the class against the extracted model on enumerated and random "
-        "operation histories, including accept thresholds of choose_random.",
-   design='DESIGN.md section 4, C16', technique='Coq proof (invariant by induction over histories, refinement, closed-form law) + extracted-model/implementation correspondence',
-   note=TB + "random.choice uniform and random.random uniform on [0,1) are assumed (DESIGN 2.3). Float drift of _total_weight is outside the exact model."),
-}
+import ast, glob
+CLAIMS = {}
+for f in sorted(glob.glob(os.path.join(V, 'harness', 'c[0-9][0-9].py'))):
+    pid = os.path.basename(f)[:-3].upper()
+    tree = ast.parse(open(f).read())
+    for node in tree.body:
+        if isinstance(node, ast.Assign) and len(node.targets) == 1 and getattr(node.targets[0], 'id', None) == 'CLAIM':
+            c = eval(compile(ast.Expression(node.value), f, 'eval'), {'dict': dict})
+            if c.get('claimed', True):
+                CLAIMS[pid] = dict(text=c['text'], design=c.get('design', 'DESIGN.md section 4, ' + pid), technique=c['technique'],
+                                   note=TB + c.get('note', ''), level=c.get('level', 'proof'))
+
+NA_REASONS = {}
+try:
+    NA_REASONS = json.load(open(os.path.join(V, 'tools', 'not_applicable.json')))
+except FileNotFoundError:
+    pass
 
 checks = []
 for p in props:
@@ -38,11 +38,11 @@ for p in props:
             'evidence_file': '/verif/evidence/%s.json' % pid,
             'replay_cmd_template': './check replay {path}',
             'engine': 'coq+harness',
-            'level_claimed': {'category': 'proof', 'text': c['text'], 'design_ref': c['design']},
+            'level_claimed': {'category': c['level'], 'text': c['text'], 'design_ref': c['design']},
             'level_note': c['note'],
             'technique': c['technique'],
         })
-na = [{'property_id': p['id'], 'reason': 'no check registered yet in this round of the build (planned: see DESIGN.md section 4); not a claim that the technique cannot apply'}
+na = [{'property_id': p['id'], 'reason': NA_REASONS.get(p['id'], 'no check registered yet at this point of the build (planned: see DESIGN.md section 4); not a claim that the technique cannot apply')}
       for p in props if p['id'] not in CLAIMS]
 m = {
  'version': 1,
